@@ -98,6 +98,24 @@ theorem proxied_returns_iff (id : Id) (b : Broker) (req : Bool) (reply : PReply)
         hello = .hello reverseConnectCmd id) :=
   ⟨dialProxy_ok id b req reply hello, proxyRequestDial_ok id b reply hello⟩
 
+/-- **proxied_ignores_reply_claim**: what the broker's reply says about connect ids (a `ClaimId`
+    attribute of its own: the same id, another one, garbage) changes nothing — the id the hello is
+    compared with is the one the requester generated, never one the peer supplied. -/
+theorem proxied_ignores_reply_claim (id : Id) (b : Broker) (req : Bool) (a : ReplyAd) (cl : Option String) (hello : Greeting) :
+    dialProxy id b req (.ad { a with claim := cl }) hello = dialProxy id b req (.ad a) hello ∧
+    proxyRequestDial id b (.ad { a with claim := cl }) hello = proxyRequestDial id b (.ad a) hello := by
+  simp [dialProxy, proxyRequestDial, proxyRequest]
+
+/-- … in particular a broker cannot choose the id: a success reply naming `x` followed by a hello
+    presenting `x` is refused unless `x` is the requester's own fresh id -/
+theorem broker_cannot_choose_id (id x : Id) (b : Broker) (req : Bool) (a : ReplyAd) (cmd : Int)
+    (hx : x ≠ id) : dialProxy id b req (.ad { a with claim := some x }) (.hello cmd x) ≠ .ok () := by
+  intro h
+  have := (proxied_returns_iff id b req (.ad { a with claim := some x }) (.hello cmd x)).1.mp h
+  obtain ⟨_, _, _, hh⟩ := this
+  injection hh with _ h2
+  exact hx h2
+
 /-- a refusal reported by the broker in proxied mode ends the attempt with that error -/
 theorem proxied_failure_ends (id : Id) (b : Broker) (req : Bool) (a : ReplyAd) (hello : Greeting)
     (hb : b.up = true) (hs : b.streamingOk = true) (hr : a.result = false) (hu : a.unsupported = false) :
